@@ -164,7 +164,12 @@ def r3(ctx: Ctx) -> None:
       "in the producers every local that is written into a document is assigned on every path of the current loop "
       "iteration (no stale value from a previous item, no NameError)", floor=6)
 def r4(ctx: Ctx) -> None:
-    allow = {("FloorSetInstance._parse_modules", "c"): "a block without any vertex row is not a FloorSet block (source comment: 'This should never happen')"}
+    # one exception, named by role: the centroid local of _parse_modules (the one assigned from compute_centroid) is unassigned only for
+    # a block without any vertex row, which is not a FloorSet block (source comment: 'This should never happen')
+    fpm = ctx.func(FSMAN, "FloorSetInstance._parse_modules")
+    centroid = {t.id for st in walk_own(fpm.node) if isinstance(st, ast.Assign) and isinstance(st.value, ast.Call) and call_name(st.value) == "compute_centroid"
+                for t in st.targets if isinstance(t, ast.Name)}
+    allow = {("FloorSetInstance._parse_modules", nm) for nm in centroid}
     targets = [(FSMAN, "FloorSetInstance._parse_modules"), (FSMAN, "FloorSetInstance._parse_connections"), (RECTIO, "solution_to_netlist"),
                (RECTIO, "get_netlist"), (LEGAL, "Model.get_netlist"), (DIE, "Die.write_yaml"), (ALLOC, "Allocation.write_yaml")]
     targets += [(NETGEN, f.qualname) for f in ctx.model.all_functions() if f.module.relpath == NETGEN and f.name.startswith("gen_")]
